@@ -54,7 +54,7 @@ HALF_KEY = "halfset-single-valued"
 
 def plan(tier):
     if tier == "quick":
-        return dict(n_cases=306, shards=2, classes=CLASSES, timeout_s=600,
+        return dict(n_cases=306, shards=3, classes=CLASSES, timeout_s=600,
                     min_evals={"export_df": 850, "star_export": 580, "import_df": 1150, "angles_to_relion": 850,
                                "angles_from_relion": 1150, "shifts": 1100, "roundtrip_mem": 300, "roundtrip_file": 300,
                                "converters": 580, "import_indep": 300, "import_halfset_single": 40})
@@ -396,7 +396,7 @@ def _formats(rng, version, cls, ps):
         sfs = ["TS_%s/%s" % (X, Y), "/abs/TS_%s/%s" % (X, Y), "tomo%s/sub/%s" % (X, Y), "%s" % Y]
         if padded:
             tfs = ["/d/%s/r2/TS_%s" % (dx, X), "/a1/%s_%s/TS_%s.tomostar" % (dx, dy, X)]
-            sfs = ["TS_%s/%s/%s" % (X, dy, Y), "/q7/%s/%s" % (dx, Y)]
+            sfs = ["TS_%s/%s/%s" % (X, dy, Y), "/q7/%s_%s/%s" % (dx, dy, Y)]
     tf, sf = tfs[int(rng.integers(0, len(tfs)))], sfs[int(rng.integers(0, len(sfs)))]
     if k == 0:
         tf = sf = ""
